@@ -4,3 +4,4 @@ Definition k_flow_writer_write_utf8_string : pfun :=
      pf_body := [
     SExpr (PMeth "extend" (PAttr (PName "self") "_data") [(PCall "_pack_asn1_utf8_string/tag" [(PName "value"); (PName "tag")])])
   ] |}.
+Definition k_flow_writer_write_utf8_string_defaults : list (string * pexp) := [("tag", PNone)].
